@@ -284,6 +284,7 @@ func TestC06(t *testing.T) {
 		default:
 			// known-finding predicate, from wire and listener events only
 			notDrained := false
+			resumeOvershoot := false
 			if side == "requestor-api" || side == "requestor-block-hook" {
 				// the pause takes effect when the executor hands the request back, which is when the
 				// requestor emits its (first) Cancel: evaluate the stream-ahead predicate at that point,
@@ -311,11 +312,21 @@ func TestC06(t *testing.T) {
 					}
 				}
 				notDrained = reRequestBeforeDrained(wire, x, x.Req.ID) || streamAheadAtPause(wire, x, c, x.Req.ID, effSeq, effK)
+				// the resume tells the responder to skip as many blocks as the requestor has traversed; loads the
+				// responder's own traversal never performs (below a link it lacks) make that count too large
+				// (the recorded C02 finding skip-overshoot, reached through a resume)
+				for i := 0; i < int(effK) && i < len(c.Exp.Loads); i++ {
+					if !c.Exp.Loads[i].RespReach {
+						resumeOvershoot = true
+					}
+				}
 			}
 			if mm := CompareOutcome("C06", x.Req, c.Exp, x.A.Store); mm != nil {
 				sig := "C06/result-changed/" + side
 				if notDrained {
 					sig = "C06/requestor-resume-before-old-exchange-drained"
+				} else if resumeOvershoot {
+					sig = "C06/requestor-resume-skip-overshoot"
 				}
 				rep.Violation(ci, sig, fmt.Sprintf("paused at block %d via %s, resumed %s: %s", k, side, timing, mm.What), detail())
 			}
